@@ -90,6 +90,29 @@ CWitOK(e) ==
         /\ Nn # {}
         /\ (V = {} \/ ~(MinS({Kappa(B, e.eta, w) : w \in V}) < MinS({Kappa(B, e.eta, w) : w \in Nn})))
 
+(* C15a: the clause sets produced for verification / falsification /      *)
+(* non-falsification of (B|A), decided per total assignment by independent *)
+(* SAT calls of the harness, against the truth table of the formula trees  *)
+ToSet(s) == {s[i] : i \in DOMAIN s}
+CnfExp(e) ==
+    LET c == SemCond(e.B, e.A, e.sig)
+    IN  [v |-> Ver(c), f |-> Fal(c), nf |-> (DOMAIN c) \ Fal(c)]
+CnfOK(e) == LET x == CnfExp(e) IN
+    /\ (e.has.v => ToSet(e.v) = x.v) /\ (e.has.f => ToSet(e.f) = x.f) /\ (e.has.nf => ToSet(e.nf) = x.nf)
+
+(* C15b: result of one minimal-correction-subset enumeration.  hard: the    *)
+(* assignments satisfying the hard clauses; fal: <<key, assignments under   *)
+(* which the soft group of that conditional is unsatisfiable>>              *)
+McsExp(e) ==
+    LET hw == ToSet(e.hard)
+        fam == {{e.fal[i][1] : i \in {j \in DOMAIN e.fal : w \in ToSet(e.fal[j][2])}} : w \in hw}
+    IN  MinimalSets(fam)
+McsOK(e) ==
+    LET res == {ToSet(e.result[i]) : i \in DOMAIN e.result}
+    IN  /\ res = McsExp(e)
+        /\ Cardinality(res) = Len(e.result)              \* each exactly once
+        /\ \A i \in DOMAIN e.result : Cardinality(ToSet(e.result[i])) = Len(e.result[i])
+
 (* IF/ELSE, not a disjunction: inside an action TLC explores both disjuncts *)
 Rej(ok, x, o) == IF ok THEN TRUE ELSE PrintT(ToJson([reject |-> l, exp |-> x, obs |-> o]))
 
@@ -97,6 +120,8 @@ Check(e) ==
     CASE e.ev = "infer"     -> Rej(InferOK(e), InferExp(e), InferObs(e))
       [] e.ev = "partition" -> Rej(PartExp(e).ok = PartObs(e).ok /\ SeqEq(PartExp(e).layers, PartObs(e).layers), PartExp(e), PartObs(e))
       [] e.ev = "diag"      -> Rej(DiagExp(e) = e.flags, DiagExp(e), e.flags)
+      [] e.ev = "cnf"       -> Rej(CnfOK(e), CnfExp(e), [v |-> e.v, f |-> e.f, nf |-> e.nf])
+      [] e.ev = "mcs"       -> Rej(McsOK(e), McsExp(e), e.result)
       [] e.ev = "cwit"      -> Rej(CWitOK(e), "c-representation refuting q", e.eta)
       [] OTHER -> Rej(FALSE, "known event kind", e.ev)
 
